@@ -23,7 +23,7 @@ from pvm.gen import mdg as gm
 from pvm.ref.c24_model import RefMdg
 
 PROP = "C24"
-N = {"quick": 160, "thorough": 15000}
+N = {"quick": 160, "thorough": 10000}
 WORKERS = {"quick": 4, "thorough": 16}
 TIMEOUT = {"quick": 300, "thorough": 1800}
 CASE_TIMEOUT = 60.0
@@ -415,8 +415,6 @@ def check(case, mon):
 
     for step, op in enumerate(case["ops"]):
         kind = op["op"]
-        ctx = kind
-        stop = False
         try:
             res = _apply(op, mdg, M, st, mon)
         except _Stop:
